@@ -11,7 +11,11 @@ if [ "$MODE" = instr ]; then
   go build -o "$WORK/instr" ./cmd/instr 2>"$WORK/build.err" || { echo "HARNESS-ERROR: instrumenter does not build" >&2; cat "$WORK/build.err" >&2; exit 2; }
   "$WORK/instr" -repo "$REPO" -out "$WORK/ov" -rt "$VERIF_DIR/rt/verifrt" > "$WORK/instr.log" 2>&1 || { echo "HARNESS-ERROR: instrumenter failed" >&2; cat "$WORK/instr.log" >&2; exit 2; }
   export VERIF_POINTS="$WORK/ov/points.json"
-  if [ "$ID" = C11 ] || [ "$ID" = C18 ]; then
+  if [ "$ID" = C18 ] || [ "$ID" = C19 ]; then
+    # the real server binary, built the way the repository builds it (workspace mode, no tags)
+    if (cd "$REPO/internal/app" && GOFLAGS= go build -o "$WORK/otp-api" ./cmd) 2>"$WORK/api.err"; then export VERIF_OTPAPI="$WORK/otp-api"; else echo "note: server binary does not build: $(head -3 "$WORK/api.err")" >&2; fi
+  fi
+  if [ "$ID" = C11 ]; then
     if go build -race -tags verif -o "$WORK/racemon" ./cmd/racemon 2>"$WORK/race.err"; then export VERIF_RACEMON="$WORK/racemon"; else echo "note: race monitor does not build: $(head -3 "$WORK/race.err")" >&2; fi
   fi
   if ! go build -tags "verif instr" -overlay "$WORK/ov/overlay.json" -o "$WORK/vrun" ./cmd/vrun 2>"$WORK/build.err"; then
